@@ -45,6 +45,7 @@ POOL = {
     # further un-aliased objects for tables that may be in the statement already (self-joins; the same name in another schema): joined, they
     # are given the automatic alias <name>2, <name>3, ...
     "P3": ["tbl", "tp", None, None], "P4": ["tbl", "tp", None, None], "TS": ["tbl", "ts", None, None],
+    "QX2": ["sub", SUBP, "tp2"],  # ... and a subquery that does
     "X2": ["tbl", "tb", None, "tp2"],  # another table that already answers to the name the first self-join of tp would get
     "Q": ["sub", SUBP, "qq"], "QN": ["sub", SUBP, None], "QN2": ["sub", SUBP2, None], "UN": ["sub", SUBU, None],
     # QU: a query object an earlier statement used already: it carries the alias sq0 from there
@@ -197,7 +198,7 @@ def program(draw):
                 steps.append(["from_", [["src", second]]])
                 sources.append(second)
         for _ in range(draw(st.integers(0, 2))):
-            cand = [k for k in table_keys + ["Q", "QN", "QN2", "UN", "QU"] if k not in sources and (POOL[k][0] != "tbl" or POOL[k][3] or all(POOL[s][0] != "tbl" or POOL[s][1] != POOL[k][1] or POOL[s][3] for s in sources))]
+            cand = [k for k in table_keys + ["Q", "QN", "QN2", "UN", "QU", "QX2"] if k not in sources and (POOL[k][0] != "tbl" or POOL[k][3] or all(POOL[s][0] != "tbl" or POOL[s][1] != POOL[k][1] or POOL[s][3] for s in sources))]
             cand = [k for k in cand if not (POOL[k][0] == "tbl" and not POOL[k][3] and any(POOL[s][0] == "tbl" and POOL[s][1] == POOL[k][1] and not POOL[s][3] for s in sources))]
             # a further un-aliased object of a table whose name already addresses a source (self-join, same name in another schema)
             cand += [k for k in DUPS if k not in sources and any(POOL[s][0] == "tbl" and POOL[s][1] == POOL[k][1] and not POOL[s][3] for s in sources)] * 2
@@ -331,6 +332,29 @@ def program(draw):
         if cls == "postgresql" and draw(st.booleans()):
             steps.append(["returning", [b.f(tk, "returning")]])
     return {"cls": cls, "steps": steps, "occ": b.occ, "sources": sources, "foreign": foreign, "kind": kind, "corr": bool(meta.get("corr")), "early": bool(meta.get("early_clauses"))}
+
+
+# ---- enumerated family: combinations of sources whose names interact (always tested, whatever the random draws do) -----------------
+COMBOS = [("P", "P3"), ("P", "P3", "P4"), ("P", "X2", "P3"), ("P", "QX2", "P3"), ("D", "P", "P3"), ("S", "TS"), ("QU", "QN2"), ("QN", "QU"), ("UN", "QN"), ("D", "UN", "QN2"),
+          ("P2", "P", "P3"), ("A", "SA", "Q"), ("C", "D")]
+
+
+def combo_case(cls, combo):
+    b = Builder(None, cls)
+    steps = b.steps
+    first = combo[0]
+    if first == "C":
+        steps.append(["with_", [["q", SUBP], ["py", "cc"]]])
+    steps.append(["from_", [["src", first]]])
+    seen = [first]
+    for k in combo[1:]:
+        steps.append(["join", [["src", k], ["enum", "JoinType", "inner"]], {}, ["on", [["eq", b.f(seen[-1], "on"), b.f(k, "on")]]]])
+        seen.append(k)
+    steps.append(["select", [b.f(k, "select") for k in seen]])
+    steps.append(["where", [["and", ["gt", b.f(seen[0], "where"), ["raw", 1]], ["isnull", b.f(seen[-1], "where")]]]])
+    steps.append(["groupby", [b.f(seen[-1], "groupby")]])
+    steps.append(["orderby", [b.f(seen[0], "orderby")]])
+    return {"cls": cls, "steps": steps, "occ": b.occ, "sources": seen, "foreign": False, "kind": "select", "corr": False, "early": False, "combo": list(combo)}
 
 
 BARE_POS = ("insert_columns", "set_target", "conflict_target", "conflict_set_target", "using", "conflict_excluded")
@@ -536,12 +560,25 @@ def nontrivial(case):
 
 def shards(tier, sd):
     n = 8 if tier == "quick" else 32
-    return [(tier, sd * 1000 + k) for k in range(n)]
+    return [(tier, sd * 1000 + k) for k in range(n)] + [("combos", 0)]
 
 
 def run_shard(shard):
     tier, sd = shard
     col = Collector()
+    if tier == "combos":
+        for cls in CTXS:
+            for combo in COMBOS:
+                case = combo_case(cls, combo)
+                res = check_program(case)
+                if res and res[0][0] == "__build__":
+                    col.count("combo_build_raised:" + "+".join(combo))
+                    col.evaluations += 1
+                    continue
+                col.case(case, True, classes=("combo:" + "+".join(combo),))
+                for sig, detail in res:
+                    col.violation(sig, case, detail)
+        return col
     nex = 500 if tier == "quick" else 6000
 
     @seed(sd)
